@@ -266,7 +266,10 @@ func init() {
 	})
 }
 
-var c16Keys = []string{"a", "b", "c", "len", "max", "zz", "Name", "Inner", "P", "Label", "N", "Age", "Score", "Any", "$v", "null", "true", "typeof", "this", "ctx", "\u00e9", "Len"}
+var c16Keys = []string{"a", "b", "c", "len", "max", "zz", "Name", "Inner", "P", "Label", "N", "Age", "Score", "Any", "$v", "null", "true", "typeof", "this", "ctx", "\u00e9", "Len", "__v", "__proto__", "___x", "_", "a_b", "A", "x1", "_a"}
+
+// c16MapKeys: keys of generated nested maps.
+var c16MapKeys = []string{"a", "b", "c", "len", "max", "zz", "Name", "Inner", "__v", "_", "a_b", "x1"}
 
 func genLeafV(t *rapid.T) spec.V {
 	switch rapid.IntRange(0, 13).Draw(t, "leafk") {
@@ -285,11 +288,15 @@ func genLeafV(t *rapid.T) spec.V {
 	case 6:
 		return spec.V{K: "float64", S: rapid.SampledFrom([]string{"0", "0.1", "-2.5", "1e21"}).Draw(t, "f")}
 	case 7:
+		if rapid.IntRange(0, 2).Draw(t, "lookalike?") == 0 {
+			txt, _ := genLookalike(t) // a text that looks like a timestamp, a number, a keyword ...: still a string
+			return spec.V{K: "string", S: txt}
+		}
 		return spec.V{K: "string", S: rapid.SampledFrom([]string{"", "s", "中"}).Draw(t, "s")}
 	case 8:
 		return spec.V{K: "bool", S: rapid.SampledFrom([]string{"true", "false"}).Draw(t, "b")}
 	case 9:
-		return spec.V{K: "time", S: "2024-02-29T12:34:56Z", Z: rapid.SampledFrom([]string{"", "Asia/Shanghai"}).Draw(t, "z")}
+		return spec.V{K: "time", S: rapid.SampledFrom([]string{"2024-02-29T12:34:56Z", "2024-02-29T12:34:56Z", "0001-01-01T00:00:00Z", "1970-01-01T00:00:00Z"}).Draw(t, "instant"), Z: rapid.SampledFrom([]string{"", "Asia/Shanghai"}).Draw(t, "z")}
 	case 10:
 		return spec.V{K: "slice", L: []spec.V{{K: "int", S: "1"}}}
 	case 11:
@@ -310,7 +317,7 @@ func genValueV(t *rapid.T, depth int) spec.V {
 		m := map[string]spec.V{}
 		n := rapid.IntRange(0, 4).Draw(t, "nkeys")
 		for i := 0; i < n; i++ {
-			m[rapid.SampledFrom(c16Keys[:8]).Draw(t, "key")] = genValueV(t, depth-1)
+			m[rapid.SampledFrom(c16MapKeys).Draw(t, "key")] = genValueV(t, depth-1)
 		}
 		return spec.V{K: "map", M: m}
 	case 3:
@@ -468,7 +475,9 @@ func TestC16Grid(t *testing.T) {
 		"s":   {K: "string", S: ""},
 		"len": {K: "int", S: "5"},
 		"max": {K: "string", S: "shadowed"},
-		"m": {K: "map", M: map[string]spec.V{"a": {K: "int", S: "0"}, "n": {K: "nil"}, "np": {K: "nilptr"}, "len": {K: "int", S: "9"},
+		"__v": {K: "int", S: "7"},
+		"_":   {K: "string", S: "2024-01-02T03:04:05Z"},
+		"m": {K: "map", M: map[string]spec.V{"__v": {K: "string", S: "123"}, "_": {K: "time", S: "0001-01-01T00:00:00Z"}, "a": {K: "int", S: "0"}, "n": {K: "nil"}, "np": {K: "nilptr"}, "len": {K: "int", S: "9"},
 			"b":  {K: "map", M: map[string]spec.V{"a": {K: "float64", S: "0.1"}, "ns": {K: "nilS"}, "m": {K: "map", M: map[string]spec.V{"a": {K: "string", S: "deep"}}}}},
 			"mi": {K: "mapint", M: map[string]spec.V{"a": {K: "int", S: "0"}, "b": {K: "int", S: "2"}}},
 			"st": {K: "struct", M: map[string]spec.V{"Name": {K: "string", S: ""}, "Age": {K: "int", S: "0"}, "N": {K: "int", S: "5"}, "Any": {K: "map", M: map[string]spec.V{"a": {K: "int", S: "1"}}}}}}},
@@ -480,8 +489,8 @@ func TestC16Grid(t *testing.T) {
 		"b": {K: "dyn", L: []spec.V{{K: "int", S: "41", N: "Age"}, {K: "mapint", N: "Any", M: map[string]spec.V{"a": {K: "int", S: "0"}}}, {K: "string", S: "bob", N: "Name"}, {K: "float64", S: "0", N: "Score"}}},
 		"c": {K: "dyn", L: []spec.V{{K: "float64", S: "2.5", N: "Score"}, {K: "string", S: "", N: "Name"}}},
 	}
-	keys := []string{"a", "b", "n", "np", "ns", "m", "mi", "ms", "st", "len", "max", "zz", "Name", "Age", "Score", "Inner", "P", "Any", "Label", "N", "i", "s"}
-	run := h.Begin("C16", "grid", fmt.Sprintf("bounded-exhaustive: one rich data map (nil, typed nil pointers at top level and inside maps, zero-valued int/string entries, typed maps with zero values, nested maps, structs with zero fields / nil pointer / interface holding a map, keys 'len' and 'max' colliding with builtins) x every path root[.|!.]k1[.|!.]k2 over a %d-key universe (depth 0-2 with both access forms at every position), rooted at the bare name and at 'this', plus a runner without a map; oracle as in the random part; non-trivial as in the random part", len(keys)))
+	keys := []string{"a", "b", "n", "np", "ns", "m", "mi", "ms", "st", "len", "max", "zz", "Name", "Age", "Score", "Inner", "P", "Any", "Label", "N", "i", "s", "__v", "_"}
+	run := h.Begin("C16", "grid", fmt.Sprintf("bounded-exhaustive: one rich data map (nil, typed nil pointers at top level and inside maps, zero-valued int/string entries, typed maps with zero values, nested maps, structs with zero fields / nil pointer / interface holding a map, keys 'len' and 'max' colliding with builtins, keys '__v' and '_', strings that look like a timestamp or a number, Go's zero time) x every path root[.|!.]k1[.|!.]k2 over a %d-key universe (depth 0-2 with both access forms at every position), rooted at the bare name and at 'this', plus a runner without a map; oracle as in the random part; non-trivial as in the random part", len(keys)))
 	defer run.End(t)
 	var idx int64
 	try := func(c pathCase) {
